@@ -244,6 +244,9 @@ def instr_pool(spec, rng, want, flow=False, max_tries=None):
         if spec.family.startswith("x86") and (name in X86_DENY or name.startswith("F") or
                                               name.startswith("REP") or "CR" in name):
             continue
+        if spec.family == "msp430" and " SR" in (" " + str(instr).replace(",", " ")):
+            # the status register aliases the individual flag bits and mode bits kept elsewhere
+            continue
         if spec.family == "mips32" and name in ("LL", "SC"):
             # load-linked / store-conditional depend on a link flag kept outside the register file
             continue
